@@ -23,7 +23,7 @@ RULE = (
     'names another), or permutes members of a type with a computed / constraint / '
     'index; distinct by hash of the variant text.')
 ASSUMPTIONS = ['schemas are drawn from the feature model of gen/sdl.py']
-MIN_EVALS = {'quick': 200, 'thorough': 10000}
+MIN_EVALS = {'quick': 200, 'thorough': 8000}
 
 
 def preload():
@@ -124,7 +124,7 @@ def _run(rec, case):
 
 def shard(rec, idx, nshards, seed, tier):
     SE.setup()
-    n = 8 if tier == 'quick' else 400
+    n = 8 if tier == 'quick' else 300
     core.run_given(_strategy(), lambda c: _run(rec, c), seed=seed * 1000 + idx,
                    max_examples=n)
 
